@@ -8,6 +8,7 @@ package main
 import (
 	"crypto/tls"
 	"crypto/x509"
+	"encoding/pem"
 	"fmt"
 	"net"
 	"os"
@@ -23,11 +24,16 @@ func init() {
 	generators["c18"] = genC18
 }
 
-var c18Behaviours = []string{"plain", "garbage", "idle", "abandon", "tls-nocert", "tls-otherca", "tls-goodcert"}
+var c18Behaviours = []string{"plain", "garbage", "idle", "abandon", "tls-nocert", "tls-otherca", "tls-otherca-chain", "tls-goodcert"}
 
 func genC18(g *Gen) {
 	for _, target := range []string{"server", "directory"} {
-		for _, cfg := range []string{"tls", "mtls"} {
+		cfgs := []string{"tls", "mtls"}
+		if target == "server" {
+			// the three ways a crypto/tls server configuration can supply its certificate
+			cfgs = append(cfgs, "tls-getcert", "mtls-getcert", "tls-getconfig", "mtls-getconfig")
+		}
+		for _, cfg := range cfgs {
 			for _, b := range c18Behaviours {
 				ops := []string{"search"}
 				if b == "plain" {
@@ -145,8 +151,25 @@ func runC18(t *Toks) string {
 			_, cli = c18ClientConfig(target, "")
 		case "tls-otherca":
 			_, cli = c18ClientConfig(target, "other")
+		case "tls-otherca-chain":
+			// the foreign leaf together with its issuer, as a chain
+			_, cli = c18ClientConfig(target, "other")
+			if len(cli.Certificates) == 1 {
+				if pemBytes, err := os.ReadFile(filepath.Join(certDir(), "ca2.pem")); err == nil {
+					if blk, _ := pem.Decode(pemBytes); blk != nil {
+						cli.Certificates[0].Certificate = append(cli.Certificates[0].Certificate, blk.Bytes)
+					}
+				}
+			}
 		default:
 			cli = goodCli
+		}
+		if strings.HasPrefix(beh, "tls-otherca") && len(cli.Certificates) == 1 {
+			// send the foreign certificate whatever CAs the server names as acceptable
+			// (a Go client would otherwise politely send none)
+			forced := cli.Certificates[0]
+			cli.Certificates = nil
+			cli.GetClientCertificate = func(*tls.CertificateRequestInfo) (*tls.Certificate, error) { return &forced, nil }
 		}
 		c, err := tls.DialWithDialer(&net.Dialer{Timeout: 3 * time.Second}, "tcp", wp.addr, cli)
 		if err == nil {
@@ -181,8 +204,8 @@ func c18ClientConfig(target, certName string) (*x509.CertPool, *tls.Config) {
 	if target == "directory" {
 		caFile = "dirca.pem"
 	}
-	pem, _ := os.ReadFile(filepath.Join(d, caFile))
-	pool.AppendCertsFromPEM(pem)
+	caPEM, _ := os.ReadFile(filepath.Join(d, caFile))
+	pool.AppendCertsFromPEM(caPEM)
 	cfg := &tls.Config{RootCAs: pool, ServerName: "localhost", MinVersion: tls.VersionTLS12}
 	switch certName {
 	case "client":
